@@ -114,7 +114,7 @@ From Verif Require Import C04.Proofs6 C04.Proofs7.
 Example ex_memo_ok : memo_ok w_unit Bytes f5_req /\ memo_ok w_unit Bytes {| rp := rp f5_req; rcached := 101 |}.
 Proof. split; [left; reflexivity|right; vm_compute; reflexivity]. Qed.
 Example ex_bytes_bound_numbers :
-  summary w_unit Bytes (merge_split w_unit Bytes 100 f5_req None) = Some [(-1, 98, 1%nat); (31, 31, 1%nat)].
+  summary w_unit Bytes (merge_split w_unit Bytes 100 f5_req None) = Some [(-1, 96, 1%nat); (29, 29, 1%nat)].
 Proof. vm_compute. reflexivity. Qed.
 
 (* the error specification on the history of ex_hist: batch 2 (ids [5;6], attached to requests 0 and 1) failed *)
